@@ -42,7 +42,7 @@ HREPS = ("dense", "sparse", "tuple", "callable", "linop", "lazy")
 # --------------------------------------------------------------------------
 # the exact domain: H = W (+)_k (a_k + s_k P_k) W^dagger
 
-def gen_desc(rng, d, real=False):
+def gen_desc(rng, d, real=False, small=False):
     sizes, rem = [], d
     while rem > 0:
         opts = [s for s in (1, 2, 2, 2, 4) if s <= rem]
@@ -56,7 +56,7 @@ def gen_desc(rng, d, real=False):
     blocks = []
     odd = False
     for s in sizes:
-        a = int(rng.integers(-2, 4))
+        a = int(rng.integers(-1, 3)) if small else int(rng.integers(-2, 4))
         if s == 1:
             blocks.append({"p": [], "a": a, "s": 0})
             continue
@@ -67,7 +67,7 @@ def gen_desc(rng, d, real=False):
             p = [letters[rng.integers(len(letters))], letters[rng.integers(len(letters))]]
             if real and rng.integers(3) == 0:
                 p = ["Y", "Y"]
-        sc = int([-3, -2, -1, 1, 1, 1, 2, 3][rng.integers(8)])
+        sc = int([-1, 1][rng.integers(2)]) if small else int([-3, -2, -1, 1, 1, 1, 2, 3][rng.integers(8)])
         odd = odd or (sc % 2 != 0)
         blocks.append({"p": p, "a": a, "s": sc})
     if not odd:  # make sure the propagator is not just a diagonal phase
@@ -259,18 +259,19 @@ def cpu_limit(seconds):
         signal.signal(signal.SIGVTALRM, old)
 
 
-CPU_LIMIT = 4.0
-# scipy.sparse.linalg.expm_multiply (what method='expm' delegates to) picks its scaling from a *randomised*
-# 1-norm estimate; measured on this sandbox it is accurate to ~1e-9 for ||H||_1 |dt| <= 30 and randomly
-# (numpy global seed dependent) wrong by many orders of magnitude beyond ~35.  Single expm steps are kept
-# inside the reliable range; see notes/C18_report.md.
-EXPM_MAX_NORM = 25.0
+CPU_LIMIT = 8.0
+# scipy.sparse.linalg.expm_multiply (what method='expm' delegates to) computes ||A||_1 exactly only while
+# ||A||_1 * ncols <= ~63 (its condition 3.13); beyond that it picks its scaling from a *randomised* 1-norm
+# estimate and is then - depending on numpy's global seed - occasionally wrong by many orders of magnitude
+# (scipy 1.18.1, measured here: 0.05-0.4% of calls; not quimb code).  Single expm steps are therefore kept
+# inside the deterministic range: ||H||_1 * |dt| * ncols <= EXPM_BUDGET.  See notes/C18_report.md.
+EXPM_BUDGET = 45.0
 
 
 def tol_of(eff, dtype):
     if str(dtype) in ("complex64", "float32"):
         return 3e-4
-    return 2e-4 if eff == "integrate" else (1e-6 if eff == "expm" else 1e-9)
+    return 2e-4 if eff == "integrate" else (1e-8 if eff == "expm" else 1e-9)
 
 
 _SEED_BASE = [0]
@@ -300,13 +301,16 @@ def run_exact(tid, rng, kind, method, hrep, d, calls, cbkind, t0, recs, dtype="c
     """calls: list of ("u", q) / ("a", [q...]); requested times are t0 + q*pi/2."""
     import quimb as qu
 
-    desc = gen_desc(rng, d, real)
+    eff = eff_method(method, hrep)
+    desc = gen_desc(rng, d, real, small=(eff == "expm"))
     A, B = build_h(desc)
     H = A + B
     p0 = gen_p0(rng, kind, d, real)
+    if eff == "expm":   # keep scipy's expm_multiply in its deterministic range (see EXPM_BUDGET)
+        maxdq = int(EXPM_BUDGET / (float(np.abs(H).sum(0).max()) * HP * (d if kind == "dop" else 1)))
+        calls = clamp_calls(calls, max(maxdq, 0))
     c1, c2 = float(rng.uniform(0.2, 0.7)), float(rng.uniform(-0.6, 0.6))
     timedep = lambda t: (1 + c1 * np.cos(4 * (t - t0))) * A + (1 + c2 * np.sin(8 * (t - t0))) * B  # noqa: E731
-    eff = eff_method(method, hrep)
     tol = tol_of(eff, dtype)
     cbl = CallbackLog(cbkind)
     common = {"tid": tid, "dom": "exact", "kind": kind, "method": method, "hrep": hrep, "d": d, "dtype": str(dtype),
@@ -345,9 +349,13 @@ def run_exact(tid, rng, kind, method, hrep, d, calls, cbkind, t0, recs, dtype="c
     if evo is None:
         return None
 
+    qprev = [0]
+
     def step_record(call, q, exc, yielded):
-        r = dict(common, ev="step", call=call, q=int(q), exc=exc)
+        r = dict(common, ev="step", call=call, q=int(q), exc=exc, rep=bool(int(q) == qprev[0]))
         observe(r)
+        if not exc:
+            qprev[0] = int(q)
         cbn, last = cbl.new_entries(evo)
         r["cbn"] = cbn
         r["cbt"], r["cbtok"], r["cbp"], r["cbpok"] = [], True, [], True
@@ -364,6 +372,11 @@ def run_exact(tid, rng, kind, method, hrep, d, calls, cbkind, t0, recs, dtype="c
         recs.append(r)
         return r
 
+    def lost(r):
+        # the integrator did not stop at the requested time: the driver's promise "only forward requests"
+        # can no longer be kept for this object
+        return eff == "integrate" and not r["exc"] and not (r["tok"] and r["tq"] == r["q"])
+
     for call in calls:
         if call[0] == "u":
             exc = ""
@@ -372,8 +385,8 @@ def run_exact(tid, rng, kind, method, hrep, d, calls, cbkind, t0, recs, dtype="c
                     evo.update_to(t0 + call[1] * HP)
             except Exception as ex:  # noqa
                 exc = type(ex).__name__
-            step_record("update_to", call[1], exc, None)
-            if exc == "CpuTimeout":
+            r = step_record("update_to", call[1], exc, None)
+            if exc == "CpuTimeout" or lost(r):
                 break
         else:
             qs = list(call[1])
@@ -393,13 +406,13 @@ def run_exact(tid, rng, kind, method, hrep, d, calls, cbkind, t0, recs, dtype="c
                     exc = type(ex).__name__
                 r = step_record("at_times", q, exc, y)
                 held.append((r, y))
-                if exc:
+                if exc or lost(r):
                     break
             # the yielded objects are looked at only now: a later update must not have changed them
             for r, y in held:
                 if y is not None:
                     r["yok"], r["y"] = snap_state(y, kind, d, tol)
-            if held and held[-1][0]["exc"] == "CpuTimeout":
+            if held and (held[-1][0]["exc"] == "CpuTimeout" or lost(held[-1][0])):
                 break
     return evo
 
@@ -501,10 +514,11 @@ def run_float(tid, rng, sysm, p0, kind, method, hrep, calls, cbkind, recs, small
     if evo is None:
         return None
     last_req = [t0]
+    excs = set()
 
     def step_record(call, t, exc, y):
         r = dict(common, ev="step", call=call, q=0, exc=exc, stopped=stop_at is not None,
-                 mono=bool(t >= last_req[0]), dq_ref=999990, dq_t=999990, dq_norm=999990, dq_pur=999990,
+                 mono=bool(t >= last_req[0]), rep=bool(t == last_req[0]), dq_ref=999990, dq_t=999990, dq_norm=999990, dq_pur=999990,
                  dq_en=999990, dq_cbt=0, dq_cbp=0, dq_y=0, cbn=[], ts=repr(float(t)))
         try:
             tt = float(evo.t)
@@ -529,8 +543,13 @@ def run_float(tid, rng, sysm, p0, kind, method, hrep, calls, cbkind, recs, small
             pass
         if not exc:
             last_req[0] = t
+        else:
+            excs.add(exc)
         recs.append(r)
         return r
+
+    def lost(r):
+        return eff == "integrate" and not r["exc"] and stop_at is None and r["dq_t"] != 0
 
     for call in calls:
         if call[0] == "u":
@@ -540,8 +559,8 @@ def run_float(tid, rng, sysm, p0, kind, method, hrep, calls, cbkind, recs, small
                     evo.update_to(call[1])
             except Exception as ex:  # noqa
                 exc = type(ex).__name__
-            step_record("update_to", call[1], exc, None)
-            if exc == "CpuTimeout":
+            r = step_record("update_to", call[1], exc, None)
+            if exc == "CpuTimeout" or lost(r):
                 break
         else:
             held = []
@@ -560,7 +579,7 @@ def run_float(tid, rng, sysm, p0, kind, method, hrep, calls, cbkind, recs, small
                     exc = type(ex).__name__
                 r = step_record("at_times", t, exc, y)
                 held.append((r, y, float(t)))
-                if exc:
+                if exc or lost(r):
                     break
             # the yielded objects are looked at only now: a later update must not have changed them
             for r, y, t in held:
@@ -569,7 +588,7 @@ def run_float(tid, rng, sysm, p0, kind, method, hrep, calls, cbkind, recs, small
                         r["dq_y"] = qdiff(np.asarray(y), r["_pt"], 1e-13)
                     except Exception:  # noqa
                         r["dq_y"] = 999990
-            if held and held[-1][0]["exc"] == "CpuTimeout":
+            if held and (held[-1][0]["exc"] == "CpuTimeout" or lost(held[-1][0])):
                 break
     for r in recs:
         r.pop("_pt", None)
@@ -582,7 +601,8 @@ def run_float(tid, rng, sysm, p0, kind, method, hrep, calls, cbkind, recs, small
             for t, p in cbl.logs[k]:
                 worst = max(worst, qdiff(p, sysm.ref(p0, t, timedep), tol))
                 n += 1
-        recs.append(dict(common, ev="cbtraj", n=int(n), dq=int(worst), mono=bool(mono)))
+        recs.append(dict(common, ev="cbtraj", n=int(n), dq=int(worst), mono=bool(mono),
+                         zerodiv=bool("ZeroDivisionError" in excs)))
     return evo
 
 
@@ -641,6 +661,22 @@ def float_calls(rng, eff, t0, nmax, cap=2.5):
     return calls
 
 
+def clamp_calls(calls, maxdq):
+    """same call structure, every requested time at most maxdq quarter periods from the previous one"""
+    out, cur = [], 0
+    for c in calls:
+        if c[0] == "u":
+            cur = cur + max(-maxdq, min(maxdq, c[1] - cur))
+            out.append(("u", cur))
+        else:
+            qs = []
+            for q in c[1]:
+                cur = cur + max(-maxdq, min(maxdq, q - cur))
+                qs.append(cur)
+            out.append(("a", qs))
+    return out
+
+
 def calls_from_case(case):
     out = []
     for c in case["calls"]:
@@ -654,9 +690,33 @@ def calls_from_case(case):
     return out
 
 
+def warm_up():
+    """compile every numba kernel the evolutions use (all dtypes) outside the CPU guard"""
+    rng = np.random.default_rng(0)
+    sink = []
+    saved = globals()["CPU_LIMIT"]
+    globals()["CPU_LIMIT"] = 600.0
+    try:
+        for kind in KINDS:
+            for method in METHODS:
+                for hrep in ("dense", "sparse", "tuple", "linop", "callable"):
+                    for dtype, real in (("complex128", False), ("complex64", False), ("complex128", True)):
+                        for d in (2, 3):
+                            run_exact(0, rng, kind, method, hrep, d, [("u", 1), ("a", [1, 2])], "dict", 0.0, sink,
+                                      dtype=dtype, real=real)
+    finally:
+        globals()["CPU_LIMIT"] = saved
+
+
 # --------------------------------------------------------------------------
 def run(ctx):
+    import time
     quick = ctx.tier == "quick"
+    tph, phases = [time.time()], {}
+
+    def phase(name):
+        phases[name] = round(time.time() - tph[0], 1)
+        tph[0] = time.time()
     rng = np.random.default_rng(1800 + ctx.seed)
     _SEED_BASE[0] = 1800 + ctx.seed
 
@@ -669,7 +729,8 @@ def run(ctx):
     selftests = (("MC_dev_expmdop.cfg", "Schrodinger"), ("MC_dev_solve2.cfg", "SupportedAccepted"),
                  ("MC_dev_progbar.cfg", "AcceptsAllowedTimes"))
     if not quick:
-        selftests += (("MC_dev_expmdop_conserved.cfg", "ConservedInv"), ("MC_dev_solve2_time.cfg", "Schrodinger"))
+        selftests += (("MC_dev_expmdop_conserved.cfg", "ConservedInv"), ("MC_dev_solve2_time.cfg", "Schrodinger"),
+                      ("MC_dev_intrepeat.cfg", "ReachesRequestedTime"))
     notes = []
     for cfg, inv in selftests:
         r = T.run_tlc("MC_C18", cfg, ctx.spec_dir, workers=4, allow_violation=True, scratch=ctx.scratch)
@@ -677,7 +738,10 @@ def run(ctx):
             raise MachineryError("model self-test %s: expected violation of %s, got %s" % (cfg, inv, r.violated))
         notes.append("%s violates %s" % (cfg, inv))
     ctx.extra["model_selftests"] = notes
+    phase("tlc-model")
 
+    warm_up()
+    phase("warm-up")
     # 2. S->C: every complete behaviour of the small configuration, replayed on the real class
     res = ctx.model_check("MC_C18", "MC_cases.cfg" if quick else "MC_cases_thorough.cfg", name="behaviours-for-replay",
                           require_actions=acts, workers=1, coverage=True)
@@ -689,16 +753,20 @@ def run(ctx):
     for i, case in enumerate(cases):
         tid += 1
         d = 2 if i % 5 == 0 else int(rng.integers(3, 5 if quick else 7))
+        if case["method"] == "expm" and case["kind"] == "dop" and case["hrep"] != "tuple":
+            d = min(d, 3)
         t0 = float([0.0, 0.0, HP, -HP, 0.37][i % 5]) if i % 3 else float(rng.uniform(-1, 1))
         run_exact(tid, rng, case["kind"], case["method"], case["hrep"], d, calls_from_case(case), cbs[i % 3], t0, recs,
                   progbar=bool(case.get("pb", False)), src="S->C")
     ctx.extra["replayed_behaviours"] = len(cases)
+    phase("replay-drive")
     ctx.sample({"replayed_case": cases[len(cases) // 2]})
     fails = ctx.validate("C18_Trace", "Trace.cfg", recs, name="replay", ntraces=len(cases))
     ctx.sample({"trace_lines": [r for r in recs if r["tid"] == len(cases) // 2][:3]})
+    phase("replay-judge")
 
     # 3. C->S: random longer histories on the exact domain
-    n_exact = 200 if quick else 3000
+    n_exact = 200 if quick else 2000
     recs2 = []
     combos = [(m, k, h) for m in METHODS for k in KINDS for h in HREPS]
     for i in range(n_exact):
@@ -720,10 +788,12 @@ def run(ctx):
         run_exact(tid, rng, kind, method, hrep, d, calls, cbs[int(rng.integers(3))], t0, recs2, dtype=dtype, real=real,
                   small_step=bool(eff == "integrate" and rng.integers(4) == 0),
                   progbar=bool(rng.integers(8) == 0))
+    phase("exact-drive")
     fails += ctx.validate("C18_Trace", "Trace.cfg", recs2, name="exact-random", ntraces=n_exact)
+    phase("exact-judge")
 
     # 4. C->S: random Hermitian Hamiltonians, relations against numpy and between methods
-    n_float = 50 if quick else 500
+    n_float = 50 if quick else 350
     recs3 = []
     routes = [("solve", "dense"), ("solve", "sparse"), ("solve", "tuple"), ("integrate", "dense"), ("integrate", "sparse"),
               ("integrate", "linop"), ("integrate", "tuple"), ("expm", "dense"), ("expm", "sparse"), ("expm", "tuple")]
@@ -734,7 +804,7 @@ def run(ctx):
         kind = KINDS[i % 2]
         p0 = rand_state(rng, kind, d)
         # (a) every route through the same forward requests: each against numpy, and against each other
-        cap = EXPM_MAX_NORM / float(np.abs(sysm.H).sum(0).max())
+        cap = EXPM_BUDGET / (float(np.abs(sysm.H).sum(0).max()) * (d if kind == "dop" else 1))
         calls = float_calls(rng, "integrate", t0, 3 if quick else 5, cap)
         ntimes = sum(1 if c[0] == "u" else len(c[1]) for c in calls)
         outs = {}
@@ -771,7 +841,10 @@ def run(ctx):
             run_float(tid, rng, sysm, p0, kind, "integrate", ["dense", "sparse", "linop"][int(rng.integers(3))],
                       [("u", t0 + float(rng.uniform(1.5, 3.0)))], cbs[int(rng.integers(3))], recs3,
                       stop_at=t0 + float(rng.uniform(0.2, 1.0)))
+    phase("float-drive")
     fails += ctx.validate("C18_Trace", "Trace.cfg", recs3, name="float-relations", ntraces=len({r["tid"] for r in recs3}))
+    phase("float-judge")
+    ctx.extra["phase_s"] = phases
     ctx.sample({"float_step": next((r for r in recs3 if r["ev"] == "step"), None)})
     ctx.sample({"agree": next((r for r in recs3 if r["ev"] == "agree"), None)})
 
@@ -792,8 +865,14 @@ def run(ctx):
     allrecs = recs + recs2 + recs3
     ctx.extra["model_drift_points"] = len(drift)
     ctx.extra["rejections_observed"] = sum(1 for r in allrecs if r.get("exc"))
+    exn = {}
+    for r in allrecs:
+        if r.get("exc"):
+            k = "%s:%s" % (r["ev"], r["exc"])
+            exn[k] = exn.get(k, 0) + 1
+    ctx.extra["exceptions_observed"] = exn
     ctx.extra["combinations_driven"] = len({(r["method"], r["kind"], r["hrep"]) for r in allrecs if r["ev"] == "new"})
-    ctx.extra["tolerances"] = {"solve double": 1e-9, "expm double": 1e-6, "integrate": 2e-4, "single precision": 3e-4,
+    ctx.extra["tolerances"] = {"solve double": 1e-9, "expm double": 1e-8, "integrate": 2e-4, "single precision": 3e-4,
                                "agree with integrate": 4e-4, "agree otherwise": 1e-6}
     ctx.clauses.update(["Schrodinger", "RejectedNotMisEvolved", "SupportedAccepted", "InitialState", "ReachesRequestedTime",
                         "AcceptsAllowedTimes", "Conserved", "CallbacksSeeState", "YieldIsState", "MethodsAgree",
@@ -804,7 +883,7 @@ def run(ctx):
         "exact domain: H = W (+)(a + sP) W^dagger with integer spectrum, times t0 + q*pi/2; TLC computes U^q p0 U^-q exactly",
         "integrator accuracy is a tolerance: 2e-4 absolute on states of norm O(1..5) (observed errors <= 4e-6)",
         "method='integrate' is only asked to move forward in time (the statement requires non-monotonic times for 'solve' only)",
-        "method='expm': single steps with ||H||_1 |dt| <= 30; beyond that scipy's expm_multiply is randomly inaccurate (not quimb code)",
+        "method='expm': single steps with ||H||_1 |dt| ncols <= 45; beyond ~63 scipy's expm_multiply switches to a randomised norm estimate and is occasionally wrong by orders of magnitude (not quimb code)",
         "float domain: reference propagator from numpy.linalg.eigh, relations quantised with qdiff",
     ]
     ctx.judge(real_fails)
